@@ -34,7 +34,8 @@ def main():
     args = [a for a in sys.argv[1:] if not a.startswith("--")]
     if "--jobs" in sys.argv:
         jobs = int(sys.argv[sys.argv.index("--jobs") + 1]); args = [a for a in args if a != str(jobs)]
-    ids = args or sorted(os.path.basename(os.path.dirname(m)) for m in glob.glob(os.path.join(HERE, "seeded", "*", "meta.json")))
+    ids = args or sorted(os.path.basename(os.path.dirname(m)) for m in glob.glob(os.path.join(HERE, "seeded", "*", "meta.json"))
+                         if not json.load(open(m)).get("retired"))
     with cf.ThreadPoolExecutor(max_workers=jobs) as ex:
         for sid, hits, err in ex.map(run, ids):
             mp = os.path.join(HERE, "seeded", sid, "meta.json")
